@@ -350,3 +350,152 @@ func ruleReplayResultIsPublishedError(w *core.World, r *core.Report) {
 	}
 	r.Check(bad == "" && paths > 0, construct, pos, "%s", bad)
 }
+
+// ---------------------------------------------------------------- R14.14 in sync mode the start point is what the target committed
+
+// ruleStartPointFromTargetInSyncMode: the in-process resume point (bisyncSeq /
+// bisyncOffset) is advanced when a unit's reply has been read: it is the last
+// *acknowledged* unit. A unit whose EXEC the target executed and whose reply
+// was lost is committed but not acknowledged. In the frontier modes resuming
+// behind the acknowledged unit only repeats units, which those modes allow; in
+// sync mode "nothing is applied twice", so the start point has to be read from
+// the records the target committed together with the units. Whatever
+// bisyncStartPoint takes from the in-process resume point must therefore be
+// unreachable in sync mode: guarded by a test of the replay mode that is false
+// for `sync`.
+func ruleStartPointFromTargetInSyncMode(w *core.World, r *core.Report) {
+	const construct = "bisyncStartPoint/in-process-position-only-in-frontier-modes"
+	f := fn(w, r, "(*syncer.RedisOutput).bisyncStartPoint")
+	if f == nil {
+		return
+	}
+	syncMode, okC := pkgConstString(w, "config", "ReplayModeSync")
+	if !okC {
+		r.Unresolved(construct, "the constant config.ReplayModeSync was not found")
+		return
+	}
+	readsPosition := func(s core.Site) bool {
+		if s.Name != "(*sync/atomic.Int64).Load" || len(s.Common().Args) < 1 {
+			return false
+		}
+		fa, ok := s.Common().Args[0].(*ssa.FieldAddr)
+		if !ok || !strings.HasSuffix(core.TypeName(fa.X.Type()), "syncer.RedisOutput") {
+			return false
+		}
+		n := core.FieldName(fa)
+		return n == "bisyncSeq" || n == "bisyncOffset"
+	}
+	// functions of the package (reached from the start-point computation by plain calls) that read the position
+	memo := map[*ssa.Function]int{} // 0 unknown, 1 reads, 2 does not, 3 in progress
+	var reads func(g *ssa.Function, depth int) bool
+	reads = func(g *ssa.Function, depth int) bool {
+		if g == nil || len(g.Blocks) == 0 || depth > 4 {
+			return false
+		}
+		switch memo[g] {
+		case 1:
+			return true
+		case 2, 3:
+			return false
+		}
+		memo[g] = 3
+		res := false
+		for _, s := range core.Sites(g, true) {
+			if readsPosition(s) {
+				res = true
+			} else if s.Callee != nil && s.Callee.Pkg == f.Pkg && s.Callee != f && reads(s.Callee, depth+1) {
+				res = true
+			}
+		}
+		if res {
+			memo[g] = 1
+		} else {
+			memo[g] = 2
+		}
+		return res
+	}
+	// is v the configured replay mode?
+	isMode := func(v ssa.Value) bool {
+		return core.DependsOn(v, func(x ssa.Value) bool {
+			ld, ok := x.(*ssa.UnOp)
+			if !ok || ld.Op != token.MUL {
+				return false
+			}
+			fa, ok := ld.X.(*ssa.FieldAddr)
+			return ok && core.FieldName(fa) == "ReplayMode"
+		})
+	}
+	// excludedInSync: the facts say something that is false when the mode is `sync`
+	excludedInSync := func(facts []core.Fact) bool {
+		for _, fct := range facts {
+			cond, val := fct.Cond, fct.Val
+			for {
+				u, ok := cond.(*ssa.UnOp)
+				if !ok || u.Op != token.NOT {
+					break
+				}
+				cond, val = u.X, !val
+			}
+			if c, ok := cond.(*ssa.Call); ok {
+				g := c.Call.StaticCallee()
+				if g == nil || len(c.Call.Args) != 1 || len(g.Params) != 1 || !isMode(c.Call.Args[0]) {
+					continue
+				}
+				if b, known := foldPredicate(w, g, syncMode); known && b != val {
+					return true
+				}
+				continue
+			}
+			if cmp, ok := core.AsCmp(cond, val); ok && (cmp.Op == token.EQL || cmp.Op == token.NEQ) {
+				x, y := cmp.X, cmp.Y
+				if _, isS := core.ConstString(x); isS {
+					x, y = y, x
+				}
+				s, isS := core.ConstString(y)
+				if !isS || !isMode(x) {
+					continue
+				}
+				if (s == syncMode) != (cmp.Op == token.EQL) {
+					return true
+				}
+			}
+		}
+		return false
+	}
+	n := 0
+	for _, s := range core.Sites(f, true) {
+		in, isV := s.Instr.(ssa.Value)
+		direct := readsPosition(s)
+		if !direct && !(s.Callee != nil && s.Callee.Pkg == f.Pkg && s.Callee != f && reads(s.Callee, 0)) {
+			continue
+		}
+		// does what was read decide where the replay starts?
+		flows := !isV
+		if isV {
+			for _, ret := range core.ReturnsX(f) {
+				for i := range ret.Results {
+					for _, rv := range core.RetVals(ret, i) {
+						if core.DependsOn(rv, func(x ssa.Value) bool { return x == in }) {
+							flows = true
+						}
+					}
+				}
+			}
+		}
+		if !flows {
+			continue
+		}
+		n++
+		what := "reads the in-process resume point (bisyncSeq / bisyncOffset)"
+		if !direct {
+			what = "calls " + shortName(s.Name) + ", which reads the in-process resume point (bisyncSeq / bisyncOffset),"
+		}
+		r.Check(core.HoldsInto(s.Instr.Block(), excludedInSync), construct, s.Instr.Pos(),
+			"bisyncStartPoint %s and returns a start point made of it on a path that replay mode %q can take (no test of the replay mode that is false for %q guards it). The in-process position is the last unit whose reply was READ; a unit the target executed whose reply was lost is committed but not acknowledged, so an in-process restart resumes behind it and applies it twice. In sync mode the start point must be the `latest` record the target committed with the unit; the in-process fast path is for the frontier modes (pipeline, parallel), where repeating a unit is allowed",
+			what, syncMode, syncMode)
+	}
+	if n == 0 {
+		// nothing of the start point comes from memory: the rule has nothing to forbid
+		r.OK(construct, f.Pos(), "")
+	}
+}
